@@ -200,6 +200,141 @@ Proof.
   rewrite (Permutation_length (drain_perm _)). apply collect_length.
 Qed.
 
+
+(* ---------------------------------------------------------------- a well-formed done event completes its call *)
+(* an `output_item.done` event whose function_call item carries a non-empty call id and a name
+   (the item id may be missing: the collector falls back to the call id) *)
+Definition wf_done (ev : json) (cid : str) : Prop :=
+  exists obj item nm,
+    ev = JObj obj /\ get_str K_type obj = Some S_item_done /\
+    obind (jget K_item obj) as_obj = Some item /\
+    get_str K_type item = Some S_function_call /\
+    get_str K_call_id item = Some cid /\ cid <> [] /\ get_str K_name item = Some nm.
+
+Lemma push_done_keeps fx d x y : In y (map c_id d) -> In y (map c_id (push_done fx d x)).
+Proof.
+  intros H. unfold push_done. destruct (fx && has_call_id (c_id x) d); [exact H|].
+  rewrite map_app. apply in_or_app. left; exact H.
+Qed.
+
+Lemma has_call_id_true ci l : has_call_id ci l = true -> In ci (map c_id l).
+Proof.
+  unfold has_call_id. intros H. apply existsb_exists in H. destruct H as (x & Hin & Hx).
+  apply str_eqb_eq in Hx. subst ci. apply in_map; exact Hin.
+Qed.
+
+Lemma push_done_has fx d x : In (c_id x) (map c_id (push_done fx d x)).
+Proof.
+  unfold push_done. destruct fx; cbn [andb].
+  - destruct (has_call_id (c_id x) d) eqn:E; [apply has_call_id_true; exact E|].
+    rewrite map_app. apply in_or_app. right. left. reflexivity.
+  - rewrite map_app. apply in_or_app. right. left. reflexivity.
+Qed.
+
+Lemma observe_keeps fx c ev y : In y (map c_id (k_done c)) -> In y (map c_id (k_done (observe fx c ev))).
+Proof.
+  intros H. destruct (k_done_observe fx c ev) as [E|(_ & x & E)]; rewrite E; [exact H|].
+  apply push_done_keeps; exact H.
+Qed.
+
+Lemma fold_observe_keeps fx evs : forall c y,
+  In y (map c_id (k_done c)) -> In y (map c_id (k_done (fold_left (observe fx) evs c))).
+Proof.
+  induction evs as [|ev r IH]; intros c y H; cbn [fold_left]; [exact H|].
+  apply IH. apply observe_keeps; exact H.
+Qed.
+
+(* item ids remembered per call id are never empty *)
+Definition ids_ok (c : coll) : Prop := forall k v, aget k (k_ids c) = Some v -> v <> [].
+
+Lemma aget_aset {V} k k' (v : V) l :
+  aget k (aset k' v l) = if str_eqb k k' then Some v else aget k l.
+Proof.
+  induction l as [|[k0 v0] r IH]; cbn [aset aget].
+  - destruct (str_eqb k k'); reflexivity.
+  - destruct (str_eqb k' k0) eqn:E0; cbn [aget].
+    + apply str_eqb_eq in E0. subst k0. destruct (str_eqb k k'); reflexivity.
+    + rewrite IH. destruct (str_eqb k k') eqn:E1; [|reflexivity].
+      apply str_eqb_eq in E1. subst k'. rewrite E0. reflexivity.
+Qed.
+
+Lemma k_ids_obs_item fx c obj dn :
+  k_ids (obs_item fx c obj dn) = k_ids c \/
+  exists cid iid, iid <> [] /\ k_ids (obs_item fx c obj dn) = aset cid iid (k_ids c).
+Proof.
+  unfold obs_item.
+  repeat match goal with
+  | |- context [match ?x with _ => _ end] => destruct x eqn:?; cbn [k_ids]; try (left; reflexivity)
+  end.
+  all: right; eexists; eexists; split; [|reflexivity]; discriminate.
+Qed.
+
+Lemma k_ids_obs_args c obj dn : k_ids (obs_args c obj dn) = k_ids c.
+Proof. unfold obs_args. destruct (get_str K_item_id obj); reflexivity. Qed.
+
+Lemma ids_ok_observe fx c ev : ids_ok c -> ids_ok (observe fx c ev).
+Proof.
+  intros Hc. unfold observe.
+  destruct ev as [| | | |?|obj]; try exact Hc.
+  set (c1 := match nonempty _ with Some id => _ | None => c end).
+  assert (H1 : k_ids c1 = k_ids c) by (subst c1; destruct (nonempty _); reflexivity).
+  assert (Hc1 : ids_ok c1) by (unfold ids_ok; rewrite H1; exact Hc).
+  assert (Hitem : forall dn, ids_ok (obs_item fx c1 obj dn)).
+  { intros dn. destruct (k_ids_obs_item fx c1 obj dn) as [E|(cid & iid & Hne & E)]; unfold ids_ok; rewrite E.
+    - exact Hc1.
+    - intros k v. rewrite aget_aset. destruct (str_eqb k cid); [intros H; inversion H; subst; exact Hne | apply Hc1]. }
+  assert (Hargs : forall dn, ids_ok (obs_args c1 obj dn)).
+  { intros dn. unfold ids_ok. rewrite k_ids_obs_args. exact Hc1. }
+  destruct (get_str K_type obj) as [ty|]; [|exact Hc1].
+  destruct (str_eqb ty S_item_added); [apply Hitem|].
+  destruct (str_eqb ty S_item_done); [apply Hitem|].
+  destruct (str_eqb ty S_args_delta); [apply Hargs|].
+  destruct (str_eqb ty S_args_done); [apply Hargs|].
+  exact Hc1.
+Qed.
+
+Lemma ids_ok_fold fx evs : forall c, ids_ok c -> ids_ok (fold_left (observe fx) evs c).
+Proof.
+  induction evs as [|ev r IH]; intros c H; cbn [fold_left]; [exact H|]. apply IH, ids_ok_observe, H.
+Qed.
+
+Lemma ids_ok_coll0 : ids_ok coll0.
+Proof. intros k v H. discriminate H. Qed.
+
+Lemma observe_wf_done fx c ev cid :
+  ids_ok c -> wf_done ev cid -> In cid (map c_id (k_done (observe fx c ev))).
+Proof.
+  intros Hok (obj & item & nm & -> & Ht & Hi & Hit & Hc & Hne & Hn).
+  unfold observe. rewrite Ht.
+  replace (str_eqb S_item_done S_item_added) with false by reflexivity.
+  rewrite str_eqb_refl.
+  set (c1 := match nonempty _ with Some id => _ | None => c end).
+  assert (H1 : k_ids c1 = k_ids c) by (subst c1; destruct (nonempty _); reflexivity).
+  unfold obs_item. rewrite Hi, Hit, str_eqb_refl. cbn [negb].
+  rewrite Hc, Hn.
+  destruct cid as [|c0 cr]; [contradiction|]. cbn [nonempty orelse obind].
+  match goal with |- context [match ?e with [] => c1 | _ :: _ => _ end] => destruct e as [|i0 ir] eqn:Eid end.
+  - exfalso. revert Eid.
+    destruct (get_str K_id item) as [[|a b]|]; cbn [nonempty orelse].
+    + destruct (aget (c0 :: cr) (k_ids c1)) as [v|] eqn:E2; cbn [orelse]; [|discriminate].
+      intros ->. rewrite H1 in E2. exact (Hok _ _ E2 eq_refl).
+    + discriminate.
+    + destruct (aget (c0 :: cr) (k_ids c1)) as [v|] eqn:E2; cbn [orelse]; [|discriminate].
+      intros ->. rewrite H1 in E2. exact (Hok _ _ E2 eq_refl).
+  - cbn [k_done].
+    match goal with |- In _ (map c_id (push_done fx ?d ?x)) => apply (push_done_has fx d x) end.
+Qed.
+
+(* every well-formed done event of an answer puts its call id among the drained calls *)
+Lemma emitted_call_drained fx evs1 ev evs2 cid :
+  wf_done ev cid -> In cid (map c_id (drain (collect fx (evs1 ++ ev :: evs2)))).
+Proof.
+  intros Hw. eapply Permutation_in; [apply Permutation_map, Permutation_sym, drain_perm|].
+  unfold collect. rewrite fold_left_app. cbn [fold_left].
+  apply fold_observe_keeps. apply observe_wf_done; [|exact Hw].
+  apply ids_ok_fold, ids_ok_coll0.
+Qed.
+
 (* ---------------------------------------------------------------- tool_choice enforcement by shape *)
 Lemma enforce_none : enforce (JStr S_none) = NoTools.
 Proof. reflexivity. Qed.
@@ -648,6 +783,18 @@ Proof.
       apply next_state_inv. exact Hin.
 Qed.
 
+(* ---------- a run that completes has answered everything: its last iteration drained no call ---------- *)
+Lemma run_completed script s r :
+  LoopRun script s r -> res_reason r = Completed ->
+  exists pre it, res_iters r = pre ++ [it] /\ it_calls it = [] /\ it_done it = [].
+Proof.
+  induction 1 as [| | |script s req s1 calls xs rsn Hc Hb Hv Hl|rd rest s req s1 calls xs cnt ne prev r Hc Hb Hv Hf Hd Hne Hp Hpn Hr Hrun IH];
+    cbn [res_reason res_iters mkres]; intros Hrs; try discriminate.
+  - inversion Hl; subst; try discriminate. exists [], (mkiter req [] []). auto.
+  - destruct (IH Hrs) as (pre & it & E & H1 & H2). exists (mkiter req calls xs :: pre), it.
+    rewrite E. auto.
+Qed.
+
 End Run.
 
 (* ---------------------------------------------------------------- statements about `run` *)
@@ -760,6 +907,11 @@ Proof.
   destruct (H Hs) as (_ & _ & _ & H4). eexists. apply H4. exact Hf.
 Qed.
 
+Lemma completed_all_answered g valid tool prompt init script :
+  res_reason (run g valid tool prompt init script) = Completed ->
+  exists pre it, res_iters (run g valid tool prompt init script) = pre ++ [it] /\ it_calls it = [] /\ it_done it = [].
+Proof. intros H. eapply run_completed; [apply run_is_looprun | exact H]. Qed.
+
 (* answered exactly once, by call id, in output order: the call ids answered by the next request *)
 Lemma out_ids_app a b : out_ids (a ++ b) = out_ids a ++ out_ids b.
 Proof. unfold out_ids. apply flat_map_app. Qed.
@@ -795,6 +947,21 @@ Proof.
     reflexivity.
   - intros Hfx. eapply call_ids_distinct; [exact Hfx|].
     rewrite E. apply in_or_app. right. left. reflexivity.
+Qed.
+
+(* a call the provider announces with a well-formed done event in answer i is among the calls iteration i
+   drains whenever the run goes on to a next request (where it is answered: answered_by_call_id) *)
+Lemma emitted_call_answered g valid tool prompt init script pre it1 it2 post rd evs1 ev evs2 cid :
+  res_iters (run g valid tool prompt init script) = pre ++ it1 :: it2 :: post ->
+  nth_error script (length pre) = Some rd -> r_events rd = evs1 ++ ev :: evs2 -> wf_done ev cid ->
+  In cid (map c_id (it_calls it1)).
+Proof.
+  intros E Hrd Hev Hw.
+  assert (Hi : nth_error (res_iters (run g valid tool prompt init script)) (length pre) = Some it1).
+  { rewrite E, nth_error_app2 by lia. rewrite Nat.sub_diag. reflexivity. }
+  destruct (at_most_once _ _ _ _ _ _ _ _ Hi) as (_ & [H0|(rd' & Hrd' & _ & Hc & _)]).
+  - destruct (answered_next_request _ _ _ _ _ _ _ _ _ _ E) as (_ & Hne & _). contradiction.
+  - rewrite Hrd in Hrd'. inversion Hrd'; subst rd'. rewrite Hc, Hev. apply emitted_call_drained; exact Hw.
 Qed.
 
 (* ---------------------------------------------------------------- witnesses *)
@@ -867,3 +1034,9 @@ Lemma ex_run_shape :
   length (res_iters ex_run) = 2%nat /\ res_reason ex_run = Completed /\
   map (fun x => (c_id (x_call x), x_ran x)) (processed ex_run) = [(lit "c2", true); (lit "c1", false)].
 Proof. vm_compute. repeat split. Qed.
+
+Lemma ex_wf_done : wf_done (w_done 0 "f1" "c1" "write" "{}") (lit "c1").
+Proof.
+  unfold wf_done, w_done. eexists _, _, (lit "write"). split; [reflexivity|].
+  repeat split; try reflexivity. discriminate.
+Qed.
